@@ -150,8 +150,11 @@ class ResponseMatrix:
         data = pd.DataFrame(self.design_matrix, columns=self.term.term.labels)
         return data
 
-    def __array__(self):
-        return self.design_matrix
+    def __array__(self, dtype=None, copy=None):
+        # numpy calls this with 'dtype' (np.asarray(obj, dtype=float)) and, since numpy 2, 'copy'
+        if copy is None:
+            return np.asarray(self.design_matrix, dtype=dtype)
+        return np.array(self.design_matrix, dtype=dtype, copy=copy)
 
     def __repr__(self):
         return self.__str__()
@@ -286,8 +289,11 @@ class CommonEffectsMatrix:
             raise ValueError(f"'{term}' is not a valid term name")
         return self.design_matrix[:, self.slices[term]]
 
-    def __array__(self):
-        return self.design_matrix
+    def __array__(self, dtype=None, copy=None):
+        # numpy calls this with 'dtype' (np.asarray(obj, dtype=float)) and, since numpy 2, 'copy'
+        if copy is None:
+            return np.asarray(self.design_matrix, dtype=dtype)
+        return np.array(self.design_matrix, dtype=dtype, copy=copy)
 
     def __repr__(self):
         return self.__str__()
@@ -447,8 +453,11 @@ class GroupEffectsMatrix:
             raise ValueError(f"'{term}' is not a valid term name")
         return self.design_matrix[:, self.slices[term]]
 
-    def __array__(self):
-        return self.design_matrix
+    def __array__(self, dtype=None, copy=None):
+        # numpy calls this with 'dtype' (np.asarray(obj, dtype=float)) and, since numpy 2, 'copy'
+        if copy is None:
+            return np.asarray(self.design_matrix, dtype=dtype)
+        return np.array(self.design_matrix, dtype=dtype, copy=copy)
 
     def __repr__(self):
         return self.__str__()
